@@ -402,7 +402,7 @@ package keeper
 //@ func (*Keeper).IterateUndelegationsByOperator
 //@   modifies store(ctx, "delegation"), trace, heap["x/delegation/types.UndelegationRecord"]
 //@   before[C04.iubo.filter] #opFunc requires heightFilter != nil ==> res_ParseUndelegationRecordKey_0.BlockHeight >= *heightFilter
-//@   before[C04.iubo.record] #opFunc requires *arg_undelegation == unm["x/delegation/types.UndelegationRecord"](res_Value_0)
+//@   before[C04.iubo.record,C03.iubo.record] #opFunc requires *arg_undelegation == unm["x/delegation/types.UndelegationRecord"](res_Value_0)
 //@   ensures[C04.iubo.readonly] !isUpdate ==> state(ctx) == old(state(ctx))
 //@ loop #1
 //@   invariant !isUpdate ==> state(ctx) == old(state(ctx))
